@@ -107,8 +107,9 @@ def is_pure(expr):
 
 
 class Walker:
-    def __init__(self, A, fn, sc, atom_of, max_leaves=256, max_steps=4000, follow_exc=False):
+    def __init__(self, A, fn, sc, atom_of, max_leaves=256, max_steps=4000, follow_exc=False, stop_at_for=False):
         self.follow_exc = follow_exc
+        self.stop_at_for = stop_at_for    # a `for` head ends the region (leaf kind "stop") instead of being undecidable
         self.A, self.fn, self.sc = A, fn, sc
         self.g = A.cfg(fn, sc)
         self.atom_of = atom_of
@@ -189,7 +190,7 @@ class Walker:
                 steps += 1
                 if steps > self.max_steps or len(leaves) > self.max_leaves:
                     raise AnalysisError(f"{self.fn.qualname}: decision walk exceeds its bound (UNDECIDED)")
-                if n in stops and not first:
+                if (n in stops or (self.stop_at_for and n.kind == "for")) and not first:
                     leaves.append(Leaf("stop", n, env, pc, eff, bind, path))
                     break
                 first = False
